@@ -260,7 +260,7 @@ Claim(t) ==
        /\ SetTop(t, [f EXCEPT !.idx = idx, !.pc = IF InRange(idx, da[d].iter) THEN "call" ELSE "sub"])
     /\ UNCHANGED <<conts, qs, env>>
 \* if (!os_atomic_sub2o(da, da_todo, done, release)) _dispatch_thread_event_signal(&da->da_event)
-IsLast(todo) == IF Mut = "last_le1" THEN todo <= 1 ELSE todo = 0
+IsLast(todo) == IF Mut = "last_le1" THEN todo <= 1 ELSE IF Mut = "no_signal" THEN FALSE ELSE todo = 0
 SubTodo(t) ==
     /\ stk[t] # <<>> /\ Top(t).pc = "sub"
     /\ LET f == Top(t) d == f.d nt == da[d].todo - f.done IN
